@@ -229,7 +229,7 @@ def run_shape(ctx, shape, concurrent):
                 if finish_order and finish_order[0] == n - 1 and n > 1:
                     ctx.hit('last-element-finishes-first')
                 orders.add(finish_order)
-                ctx.ok(f'{flag}:{n}-elements', cls, sample=None if n_sched > 1 else wit)
+                ctx.ok(f'{flag}:{n}-elements', cls, sample=wit if (len(s.taken) >= 2 and finish_order != tuple(range(n))) else None)
             ctx.hit('schedules')
             prefix = sched.next_prefix(s.taken, s.branching)
     gc.collect()
